@@ -276,14 +276,67 @@ class ExecMixin(object):
     def st_If(self, stmt, st):
         c = z3.simplify(self.ev_truth(stmt.test, st))
         outs = []
+        arms = []
         for taken, body, tag in ((c, stmt.body, "t"), (z3.Not(c), stmt.orelse, "f")):
             if not self.branch_feasible(st, taken):
                 continue
             s2 = st.fork()
             s2.assume(taken)
             s2.trail.append(tag)
-            outs.extend(self.run_block(body, s2))
+            res = self.run_block(body, s2)
+            arms.append(res)
+            outs.extend(res)
+        if self.unit.merge_ifs and len(arms) == 2 and all(len(a) == 1 and a[0][0] == NORMAL for a in arms):
+            try:
+                return [(NORMAL, self.merge_two(st, c, arms[0][0][1], arms[1][0][1]), None)]
+            except OutOfSubset:
+                pass
         return outs
+
+    def merge_two(self, base, c, a, b):
+        """join of the two arms of an if: values that differ become If(c, va, vb); facts become implications"""
+        m = base.fork()
+        m.trail = list(base.trail) + ["j"]
+        n0 = len(base.pc)
+        m.pc = list(base.pc) + [z3.Implies(c, x) for x in a.pc[n0:] if not (x.eq(c))] + \
+            [z3.Implies(z3.Not(c), x) for x in b.pc[n0:] if not x.eq(z3.Not(c))]
+        qa = [q for q in a.qf if q not in base.qf]
+        qb = [q for q in b.qf if q not in base.qf]
+        m.qf = list(base.qf) + [QFact(q.lo, q.hi, (lambda i, q=q: z3.Implies(c, q.body(i))), q.label, q.sort, q.guard) for q in qa] + \
+            [QFact(q.lo, q.hi, (lambda i, q=q: z3.Implies(z3.Not(c), q.body(i))), q.label, q.sort, q.guard) for q in qb]
+        m.terms = list(a.terms) + [t for t in b.terms if all(not t.eq(u) for u in a.terms)]
+        m.heap = dict(a.heap)
+        for oid, cb in b.heap.items():
+            ca = a.heap.get(oid)
+            if ca is None:
+                m.heap[oid] = cb
+            elif not self.same_cell(ca, cb):
+                m.heap[oid] = self.ite_cell(c, ca, cb, m)
+        m.env = {}
+        for nm in set(a.env) & set(b.env):
+            va, vb = a.env[nm], b.env[nm]
+            m.env[nm] = va if self.same_val(va, vb) else self.ite(c, va, vb, m, None)
+        return m
+
+    def ite_cell(self, c, ca, cb, st):
+        if isinstance(ca, (HList, HCList)) and isinstance(cb, (HList, HCList)):
+            if isinstance(ca, HCList) and isinstance(cb, HCList) and len(ca.items) == len(cb.items):
+                return HCList([x if self.same_val(x, y) else self.ite(c, x, y, st, None) for x, y in zip(ca.items, cb.items)])
+            la, lb = self.as_hlist(ca), self.as_hlist(cb)
+            if isinstance(ca, HCList) and not ca.items:
+                la = HList(lb.ek, la.n, lb.arr)
+            if isinstance(cb, HCList) and not cb.items:
+                lb = HList(la.ek, lb.n, la.arr)
+            if la.ek != lb.ek:
+                raise OutOfSubset("merge of lists of different kinds")
+            return HList(la.ek, z3.If(c, la.n, lb.n), z3.If(c, la.arr, lb.arr))
+        if isinstance(ca, HObj) and isinstance(cb, HObj) and ca.cls == cb.cls and set(ca.f) == set(cb.f):
+            return HObj(ca.cls, dict((k, ca.f[k] if self.same_val(ca.f[k], cb.f[k]) else self.ite(c, ca.f[k], cb.f[k], st, None)) for k in ca.f))
+        if isinstance(ca, HDict) and isinstance(cb, HDict) and ca.items is None and cb.items is None and ca.ek == cb.ek \
+                and not isinstance(ca.ek, tuple):
+            size = z3.If(c, ca.size, cb.size) if ca.size is not None and cb.size is not None else None
+            return HDict(ca.ek, z3.If(c, ca.keys, cb.keys), z3.If(c, ca.vals, cb.vals), default=ca.default, size=size)
+        raise OutOfSubset("cannot merge cells %r / %r" % (ca, cb))
 
     def st_Return(self, stmt, st):
         v = self.ev(stmt.value, st) if stmt.value is not None else VNone()
